@@ -14,11 +14,13 @@ CHECKS = {
         text='Bounded symbolic model checking of the real SimulatedBroker/Portfolio/PortfolioEvent code: a symbolic reachable state is built through the public API '
              '(<=2 portfolios, <=2 assets, symbolic transfers, fills and pending orders, symbolic clock) and ONE operation of every kind with symbolic arguments is executed; z3 proves the delta '
              'specification of each operation (cash moves exactly by transfers and fill costs, transfers are zero-sum, nothing else changes, history events carry the true amounts rounded to cents, '
-             'account totals equal the per-portfolio sums). One step from every builder state + induction covers histories of any length within the structural bound.',
+             'account totals equal the per-portfolio sums). One step from every builder state + induction covers histories of any length within the structural bound; '
+             'the thorough tier adds genuinely multi-step symbolic histories (2-4 operations, refusals included) as a guard on that argument.',
         design='3/C01, 3.0, 8', technique=SYMX + '; inductive one-step delta specifications with a ghost ledger'),
     'C02': dict(
         text='Same harness: after the builder and after every update z3 proves reported quantity = signed sum of fills, reported iff non-zero, market value = quantity x most recent price '
-             '(fill or mark, whichever came last), total = sum, equity = cash + market value, for symbolic fills, quotes and instants.',
+             '(fill or mark, whichever came last), total = sum, equity = cash + market value, for symbolic fills, quotes and instants; plus the real Portfolio/PositionHandler driven '
+             'directly by ladders of 3 (thorough 4) fill/mark steps on two assets, checked after every step (close-and-reopen, flips).',
         design='3/C02, 3.0, 8', technique=SYMX + '; ghost ledger of fills and marks'),
     'C03': dict(
         text='k-fill ladders (k<=3, thorough 4: every sign pattern of the fills and of the running net quantity) and one inductive step from an arbitrary valid Position on the real Position/Transaction '
@@ -58,7 +60,8 @@ CHECKS = {
         design='3/C11', technique=SYMX),
     'C14': dict(
         text='The real run() loop on a symbolic clock (<=3, thorough 4 events of any type, symbolic schedule and burn-in) against recording stubs, plus whole sessions: construction runs exactly at admitted scheduled '
-             'instants, one equity point per close at/after burn-in read after the broker update, fills only at opens after the first admitted rebalance, allocation table forward-filled.',
+             'instants, one equity point per close at/after burn-in read after the broker update, fills only at opens after the first admitted rebalance; the real get_target_allocations() '
+             'on every pattern of changing weight vectors (chosen by input booleans) and burn-in cut.',
         design='3/C14, 8', technique=SYMX + '; symbolic time'),
     'C15': dict(
         text='Every refusable request kind on symbolic reachable broker/portfolio states with arguments ranging over valid and invalid regions: a refusal is the documented exception type, happens exactly for invalid '
@@ -74,7 +77,8 @@ CHECKS = {
         design='3/C17, 8', technique=SYMX + '; exact log-domain algebra, uninterpreted sqrt/pow'),
     'C18': dict(
         text='Whole real sessions re-run on the same path with (i) the warm, previously used data-source object and arbitrary earlier queries, (ii) arbitrary iteration order of every set built in pcm.py/signal.py (all orders explored) '
-             'and order ids sorting the other way: z3 proves fills, equity, allocations (values and column order) are the same terms. A fresh interpreter with another hash seed is represented by the set orders (stated).',
+             'and order ids sorting the other way, (iii) a fresh source object while the class-wide memo holds another source\'s answers: z3 proves fills, equity, allocations are the same terms. '
+             'A fresh interpreter with another hash seed: the session is explored in separate interpreters under different PYTHONHASHSEED values, paths exported as SMT-LIB and joined pairwise (vf/props/hashseed.py).',
         design='3/C18, 8', technique=SYMX + '; nondeterministic set-iteration order chosen by solver-explored input booleans'),
     'C19': dict(
         text='Real universes, alpha model and optimisers on symbolic instants (entry = t is a value of the clock), and the real PCM + broker with a DynamicUniverse of symbolic entry instants: membership is inclusive, '
